@@ -17,6 +17,7 @@ pub mod c12;
 pub mod c13;
 pub mod c14;
 pub mod c15;
+pub mod c16;
 pub mod c17;
 pub mod c18;
 pub mod c19;
@@ -43,6 +44,7 @@ pub fn run(id: &str, tier: Tier, seed: u64, replay: Option<Value>) -> i32 {
         "C13" => c13::run(tier, seed, replay),
         "C14" => c14::run(tier, seed, replay),
         "C15" => hist::run(&c15::spec(), tier, seed, replay),
+        "C16" => c16::run(tier, seed, replay),
         "C17" => c17::run(tier, seed, replay),
         "C18" => hist::run(&c18::spec(), tier, seed, replay),
         "C19" => c19::run(tier, seed, replay),
